@@ -31,6 +31,7 @@ import ClockBound.Proofs.RsErrorsNowFfi
 import ClockBound.Proofs.RsErrorsOpen
 import ClockBound.Proofs.RsErrorsNew
 import ClockBound.Properties.ErrorsProg
+import ClockBound.Properties.CodeTieErrorsTables
 set_option linter.unusedSimpArgs false
 namespace ClockBound.CodeTieErrors
 open ClockBound ClockBound.Rs ClockBound.Generated ClockBound.Rs.DictErrors ClockBound.Rs.EmbedErrors
@@ -64,61 +65,20 @@ theorem ffi_from_eq (inp : Nat → Value) (e : ShmErr) :
     = .ok (ffiErrValue e.toClient.full) .unit [] := by
   rw [← ErrorsProg.toClient_full]; exact ffi_from inp e.full
 
-/-- the regenerated `#[repr(C)] enum clockbound_err_kind` has exactly the model's kinds, numbered by
-    `ErrKind.code` (the discriminants Rust assigns: 0, 1, ..) -/
-theorem ffi_kind_table :
-    Code.enumDiscr.lookup "clockbound_err_kind" =
-      some ([ErrKind.none, .syscall, .notInit, .malformed, .causality].map fun k => (ffiKindName k, (k.code : Int))) := by
-  simp [rs_code, List.lookup, ffiKindName, ErrKind.code]
-
-/-- so the kind the C caller reads (`kind as u32`, a C `enum`) is `ErrKind.code` -/
-theorem ffi_kind_code (k : ErrKind) (st : St) :
-    primCast Code.enumDiscr "u32" (ffiKindValue k) st = some (.val (.int .u32 k.code) st) := by
-  cases k <;> simp [rs_eval, rs_code, ffiKindValue, ffiKindName, ErrKind.code]
-
-/-- the Rust client's `ClockBoundErrorKind` has exactly the four error kinds, in the model's order -/
-theorem client_kind_table :
-    Code.enums.lookup "ClockBoundErrorKind" =
-      some [("Syscall", 0), ("SegmentNotInitialized", 0), ("SegmentMalformed", 0), ("CausalityBreach", 0)] ∧
-    [ErrKind.syscall, .notInit, .malformed, .causality].map clientKindValue =
-      ["Syscall", "SegmentNotInitialized", "SegmentMalformed", "CausalityBreach"].map
-        fun v => Value.enumv ("ClockBoundErrorKind::" ++ v) [] := by
-  constructor
-  · simp [rs_code, List.lookup]
-  · rfl
-
-/-- and `ShmError` itself has exactly the four variants of `ShmErrorV` -/
-theorem shm_error_table :
-    Code.enums.lookup "ShmError" =
-      some [("SyscallError", 2), ("SegmentNotInitialized", 0), ("SegmentMalformed", 0), ("CausalityBreach", 0)] := by
-  simp [rs_code, List.lookup]
-
 /-- `impl From<ClockStatus> for clockbound_clock_status`: the variant of the same name, whose discriminant
     is `Status.code` -/
 theorem ffi_status_from_eq (inp : Nat → Value) (s : Status) :
     run (ctxE inp) "From<ClockStatus> for clockbound_clock_status::from" .unit [statusValue s]
     = .ok (ffiStatusValue s) .unit [] :=
   ffi_status_from inp s
-
-theorem ffi_status_table :
-    Code.enumDiscr.lookup "clockbound_clock_status" =
-      some ([Status.unknown, .synchronized, .freeRunning].map fun s => (ffiStatusName s, (s.code : Int))) := by
-  simp [rs_code, List.lookup, ffiStatusName, Status.code]
+-- (`ffi_status_table`, `ffi_kind_table`, `ffi_kind_code`, `client_kind_table`, `shm_error_table`,
+--  `into_destinations`: in `Properties/CodeTieErrorsTables.lean`, same namespace)
 
 /-- `impl Default for clockbound_err`: kind NONE, errno 0, detail NULL -/
 theorem ffi_default_eq (inp : Nat → Value) :
     run (ctxE inp) "Default for clockbound_err::default" .unit []
     = .ok (ffiErrValue ⟨.none, 0, none⟩) .unit [] :=
   ffi_default inp
-
-/-- the declared types of the destinations of `e.into()`, `clock_status.into()`, `Default::default()` in
-    the C API: `ctx.err` and the pointee of `clockbound_open`'s `err` are `clockbound_err`, the status field of
-    the result is `clockbound_clock_status` -/
-theorem into_destinations :
-    (Code.structs.lookup "clockbound_ctx").bind (·.lookup "err") = some "clockbound_err" ∧
-    (Code.structs.lookup "clockbound_now_result").bind (·.lookup "clock_status") = some "clockbound_clock_status" ∧
-    Code.fn_ffi_lib__clockbound_open.params.map (·.2) = ["*const c_char", "*mut clockbound_err"] := by
-  simp [rs_code, List.lookup]
 
 /-! ## 2. `now()`: the C client and the Rust client are the same function of what clock-bound-shm returns -/
 
